@@ -479,6 +479,18 @@ pub fn healthy(id: &'static str, source: &str) -> Option<bool> {
 }
 
 /// S-expression of the parse tree (diagnostics for selfcheck).
+/// Code that puts a block comment inside the interpolated part of a string literal: (text before the comment,
+/// text after it). The comment is a real comment there, although its ancestors are string nodes.
+pub fn interp_wrapper(id: &str) -> Option<(&'static str, &'static str)> {
+    match id {
+        "javascript" | "typescript" | "tsx" => Some(("const s{n} = `v ${ 1", "} w`;")),
+        "c_sharp" => Some(("class Q{n} { string s = $\"v { 1", "} w\"; }")),
+        "swift" => Some(("let s{n} = \"v \\( 1", ") w\"")),
+        "kotlin" => Some(("val s{n} = \"v ${ 1", "} w\"")),
+        _ => None,
+    }
+}
+
 pub fn sexp(id: &'static str, source: &str) -> String {
     let Some(language) = ts_language(id) else { return "(n/a)".into() };
     let mut ps = tree_sitter::Parser::new();
